@@ -741,6 +741,22 @@ def check_C07(tier):
         for d in (2, 3, 4, 5):
             for c in pcombos:
                 add(n, "depth", "pruning", depth=d, cfg=c)
+    # parents of nodes in which the side to move is in check by a pawn that has just made its double step and EVERY legal reply is
+    # the en-passant capture of that pawn (EpOnlyEvasion.tla searches for them; ordinary game trees contain none): a search that
+    # forgets the en-passant capture as an answer to check calls such a node checkmate
+    epa = vlib.tlc("EpOnlyEvasion", "INIT Init\nNEXT Next\nINVARIANT Obs\nCHECK_DEADLOCK FALSE\n", workers=12, tag="ep-only", timeout=3600)
+    ck.add_tlc(epa)
+    eponly = []
+    for l in vlib.tlc_lines(epa, '<<"EPONLY"'):
+        d_ = json.loads(json.loads(l.rstrip("\r\n")[len('<<"EPONLY", '):-2]))
+        eponly.append({"board": d_["board"], "stm": d_["stm"], "cr": [], "ep": -1, "hmc": 0, "fmn": 30})
+    rng.shuffle(eponly)
+    ck.cov["ep_only_evasion_parents"] = len(eponly)
+    for pos in eponly[:(30 if quick else 600)]:
+        n = {"pos": pos, "root": pos, "path": [], "kinds": []}
+        for d in (2, 3, 4):
+            for c in pcombos[:2]:
+                add(n, "depth", "pruning", depth=d, cfg=c)
     # converse: roots without legal moves
     term = sl.load_nodes(tree, want=lambda o: len(o["legal"]) == 0)
     rng.shuffle(term)
